@@ -74,7 +74,30 @@ for kind in ("ins", "del"):
         feed(A, 1, 10, 19, [m("ins", 11)]), run(A), feed(A, 2, 19, 25, [m(kind, 21, "px")]), run(A)]})
     c01.append({"plan": "d-notgt-mixed-" + kind, "params": {"tt": 1, "catalog": cat_nt}, "steps": [{"op": "start", "c": "c1"},
         feed(A, 1, 10, 19, [m("del", 11), m(kind, 12, "px"), m("ins", 13)]), run(A)]})
+# the consumer of the API event channel (capacity 10) is stuck while ten partition-creation requests queue up; then a pack
+# that cannot be re-addressed is read: its error must not get lost (nothing is emitted for it, so without an error event
+# the pack would be skipped silently)
+_pn = ["px%d" % i for i in range(1, 12)]
+cat_ev = [coll("c1", 101, ["sa_101v0"], ["ta_901v0"], 901,
+               parts=dict([("_default", [1011, 9011])] + [(n, [1100 + i, 9100 + i]) for i, n in enumerate(_pn)]), notgt=_pn)]
+c01.append({"plan": "d-evfull-notgt", "params": {"tt": 1, "catalog": cat_ev}, "steps": [{"op": "start", "c": "c1"}, {"op": "holdevs"}] +
+    [{"op": "addpart", "c": "c1", "p": n} for n in _pn[:10]] +
+    [feed(A, 1, 10, 19, [m("ins", 11, _pn[10])]), run(A), {"op": "drainevs"}, feed(A, 2, 19, 25, [m("ins", 21)]), run(A)]})
 c02 = [dict(p, plan=p["plan"]) for p in c01 if p["plan"] in ("d-late", "d-equal-ts") or p["plan"].startswith("d-notgt")]
+
+# free-running bursts (no gates, one feeder goroutine per stream, real parallelism): races that the single-step scheduler
+# cannot produce (e.g. concurrent hand-over of forwarded packs); validated against the same contract
+from checks.pipecommon import CAT_Z, CAT_Z_SAME, rename_same
+_sx = ["sa_101v0", "sb_101v1", "sa_102v0", "sb_103v0"]
+_sz = ["sa_101v0", "sb_102v0", "sa_103v0"]
+def _starts(names): return [{"op": "start", "c": n} for n in names]
+bursts = [
+ {"plan": "burst-x", "params": {"tt": 1, "catalog": CAT_X}, "steps": _starts(("c1", "c2", "c3")) + [{"op": "burst", "n": 40, "streams": _sx}]},
+ {"plan": "burst-z", "params": {"tt": 1, "catalog": CAT_Z}, "steps": _starts(("c2", "c1", "c3")) + [{"op": "burst", "n": 40, "streams": _sz}]},
+ {"plan": "burst-zs", "params": {"tt": 1, "catalog": CAT_Z_SAME}, "steps": rename_same(_starts(("c1", "c2", "c3")) + [{"op": "burst", "n": 40, "streams": _sz}])},
+]
+c01 += bursts
+c02 += bursts
 
 for name, ps in (("C01", c01), ("C02", c02), ("C03", c03)):
     with open(os.path.join(os.path.dirname(os.path.abspath(__file__)), name + ".jsonl"), "w") as f:
